@@ -46,6 +46,9 @@ func body(r *sim.Run) {
 	}
 	r.Logf("room %s version %s: %d events, %d servers, rule %s", rm.roomID, ver, len(rm.order), len(rm.servers), rm.joinRule(rm.tip.after))
 	r.Probe("rule_" + rm.joinRule(rm.tip.after))
+	if t.Chance(120) {
+		rm.restart()
+	}
 	if r.Prop == "C15" {
 		runC15(rm)
 		return
